@@ -201,6 +201,9 @@ class Def:
         # generic free fn tyvars: bare capitalised idents in param types that are not known nominals -> decided later
 
 
+SELF_DEFAULT_TRAITS = {'Add', 'Sub', 'Mul', 'Div', 'Rem', 'AddAssign', 'SubAssign', 'MulAssign', 'DivAssign', 'RemAssign', 'Sum', 'Product',
+                       'PartialEq', 'PartialOrd'}
+
 KNOWN_NOMINALS = set('''BigDecimal BigDecimalRef WithScale InsigData NonDigitRoundingData FullScaleFormatter ParseBigDecimalError
 Option Result Cow String Vec Box NonZero Formatter Arguments Chars Context RoundingMode Sign BigInt BigUint Ordering Range RangeTo RangeFrom RangeFull
 Iter IterMut Rev Zip Copied Filter TakeWhile Take Repeat U32Digits Argument Error FpCategory ParseFloatError ParseIntError ParseBigIntError Utf8Error FromUtf8Error
@@ -299,9 +302,15 @@ class Index:
             if f.startswith('<') and d.kind == 'impl' and d.self_ty is not None:
                 if not unify(parse_ty(d.self_ty, d.tyvars), parse_ty(self_s), env):
                     continue
-                if trait_ty is not None and d.trait_full and trait_ty[0] == 'nom' and trait_ty[2]:
+                if trait_ty is not None and d.trait_full and trait_ty[0] == 'nom':
                     ht = parse_ty(d.trait_full, d.tyvars)
-                    if ht[0] == 'nom' and ht[2] and len(ht[2]) == len(trait_ty[2]):
+                    if ht[0] == 'nom' and trait_ty[1] in SELF_DEFAULT_TRAITS:
+                        # `Trait` without arguments means `Trait<Self>` for the operator / Sum / comparison traits
+                        cargs = trait_ty[2] or [parse_ty(self_s)]
+                        hargs = ht[2] or [parse_ty(d.self_ty, d.tyvars)]
+                        if len(cargs) != len(hargs) or not all(unify(a, b, env) for a, b in zip(hargs, cargs)):
+                            continue
+                    elif ht[0] == 'nom' and ht[2] and trait_ty[2] and len(ht[2]) == len(trait_ty[2]):
                         if not all(unify(a, b, env) for a, b in zip(ht[2], trait_ty[2])):
                             continue
             if all(unify(p, a, env) for p, a in zip(d.param_tys, actual)):
